@@ -123,7 +123,7 @@ def build(x):
     F = 'src/operator/key_by.rs'
     st = x.struct(F, 'KeyBy'); st.text = '#[verifier::reject_recursive_types(Key)]\n#[verifier::reject_recursive_types(Keyer)]\n#[verifier::reject_recursive_types(Op)]\n' + st.text
     nx = x.method(F, 'KeyBy', 'next', trait='Operator')
-    nx.replace_exact('V-TRAIT', 'StreamElement<Self::Out>', 'StreamElement<(Key, Op::Out)>', detail='associated type Out substituted by its definition')
+    nx.replace_exact('V-TRAIT', 'StreamElement<Self::Out>', 'StreamElement<(Key, Op::Out)>', detail='associated type Out substituted by its definition', count=None)
     nx.name_result('r'); nx.add_spec(KEYBY_SPEC)
     pieces += [st, "impl<Key: DataKey, Keyer, Op> KeyBy<Key, Keyer, Op>\nwhere\n    Keyer: Fn(&Op::Out) -> Key + Send + Clone,\n    Op: Operator,\n{", nx, "}"]
 
@@ -147,7 +147,7 @@ def build(x):
     nx.sub('V-SPEC', r'match self\.prev\.next\(\) \{', PULL_HINT, detail='scrutinee bound to a ghost-visible name `__e`', must=True)
     # Verus loses the state across a call inside a match guard (measured: even `self.p == old(self).p` fails after `P if !(self.p)(x) => {}`),
     # so the guarded arms are evaluated first, as the definition of match guards prescribes: guards in order, first true one wins
-    nx.sub('V-PAT', r'match (?P<e>\w+) \{\s*StreamElement::Item\(ref (?P<i>\w+)\) \| StreamElement::Timestamped\(ref (?P=i), _\)\s*if (?P<g>[^=]*?)=> \{\}\s*(?P<el>\w+) => return (?P=el),\s*\}',
+    nx.sub('V-PAT', r'match (?P<e>\w+) \{(?:\s|//[^\n]*\n)*StreamElement::Item\(ref (?P<i>\w+)\) \| StreamElement::Timestamped\(ref (?P=i), _\)\s*if (?P<g>[^=]*?)=> \{\}(?:\s|//[^\n]*\n)*(?P<el>\w+) => return (?P=el),\s*\}',
            r'{ let __drop: bool = match &\g<e> { StreamElement::Item(\g<i>) => \g<g>, StreamElement::Timestamped(\g<i>, _) => \g<g>, _ => false };\n                if __drop {} else { let \g<el> = \g<e>; return \g<el>; } }',
            detail='`match e { Item(ref i) | Timestamped(ref i, _) if G => {} el => return el }` -> `let __drop = match &e { Item(i) => G, Timestamped(i, _) => G, _ => false }; if __drop {} else { let el = e; return el; }` (definition of match guards; G verbatim)', flags=re.S, must=True)
     pieces += [st, "impl<Op, Predicate> Filter<Op, Predicate>\nwhere\n    Predicate: Fn(&Op::Out) -> bool + Send + Clone + 'static,\n    Op: Operator,\n{", nx, "}"]
@@ -156,7 +156,7 @@ def build(x):
     F = 'src/operator/inspect.rs'
     st = x.struct(F, 'Inspect'); st.text = '#[verifier::reject_recursive_types(F)]\n#[verifier::reject_recursive_types(Op)]\n' + st.text
     nx = x.method(F, 'Inspect', 'next', trait='Operator')
-    nx.replace_exact('V-TRAIT', 'StreamElement<Self::Out>', 'StreamElement<Op::Out>', detail='associated type Out substituted by its definition')
+    nx.replace_exact('V-TRAIT', 'StreamElement<Self::Out>', 'StreamElement<Op::Out>', detail='associated type Out substituted by its definition', count=None)
     nx.name_result('r'); nx.add_spec(INSPECT_SPEC)
     pieces += [st, "impl<F, Op> Inspect<F, Op>\nwhere\n    F: FnMut(&Op::Out) + Send + Clone,\n    Op: Operator,\n{", nx, "}"]
     return pieces
